@@ -35,6 +35,28 @@ Record bentry := { be_kind : string; be_inst : bool; be_mixed : bool; be_unitw :
    names the real exportHdf5 wrote *)
 Record selprobe := { sp_kind : string; sp_off : string; sp_rows : list (string * list (string * Z)); sp_names : list (option string) }.
 
+(* the file skeleton, probed: what NeuroMLHdf5Writer.write / Network.exportHdf5 create and how parse_group dispatches *)
+Record skeleton := {
+  sk_root : string; sk_network : string;             (* names of the root group and of the network group *)
+  sk_wprefix : list (string * string);               (* kind |-> group-name prefix used by the writer *)
+  sk_order : list string;                            (* kinds in the order Network.exportHdf5 creates their groups *)
+  sk_networks_written : nat;                         (* network groups created for a document holding TWO networks *)
+  sk_embeds_xml : bool; sk_restores_networks : bool; (* neuroml_top_level written without the networks; networks put back *)
+  sk_array_named_by_id : bool;                       (* the table of a construct is named by its id (the reader looks it up so) *)
+  sk_rprefix : list (string * string);               (* reader: prefix |-> class of group: population | projection | inputlist *)
+  sk_prefix_only : bool;                             (* a group whose name merely CONTAINS a prefix is not dispatched *)
+  sk_pops_first : bool;                              (* populations are handled before the other groups whatever the name order *)
+  sk_root_dispatch : bool;                           (* the reader recognises the root and network groups by the writer's names *)
+  sk_empty_proj_w : list (string * gsrc);            (* group attributes of a chemical projection without connections *)
+  sk_empty_proj_array : bool;                        (* ... does it get a table (it must not: zero rows cannot be stored) *)
+  sk_empty_proj_read : list (string * bool) }.       (* ... field read back through finalise_projection *)
+
+(* the optimized loader's containers (NetworkContainer.InstanceList / ConnectionList / InputsList.__getitem__), probed:
+   semantic field <- column name, int()/float() applied, what is taken when the name is absent, a 0 cell read as 0 *)
+Inductive odflt := ODConst (c : cst) | ODColumn (k : nat) | ODRowIndex | ODFail.
+Record oentry := { oe_field : string; oe_name : string; oe_at0 : bool; oe_int : bool; oe_dflt : odflt; oe_zero_kept : bool }.
+Record otable := { ot_kind : string; ot_variant : string; ot_entries : list oentry; ot_dropped : list string }.
+
 Record h5gen := {
   g_writer : list wtable; g_reader : list rtable; g_builder : list bentry;
   g_sized_pop_w : list (string * gsrc); g_sized_pop_r : list (string * string);
@@ -45,7 +67,7 @@ Record h5gen := {
   g_refusals : list (string * bool); g_delay_units : list (string * bool); g_select : list selprobe;
   g_zero : list (string * string * string * bool);
   g_precision : list (string * string * string * bool); g_merge : list (string * bool);
-  g_strings : list (string * bool) }.
+  g_strings : list (string * bool); g_skel : skeleton; g_opt : list otable }.
 
 (* ------------------------------------------------------------------ small boolean equalities *)
 Definition cst_eqb (a b : cst) : bool :=
@@ -515,7 +537,215 @@ Section Codec.
   Variable order : list node -> list node.
   Definition write_net (g : h5gen) (cs : list construct) : option (list node) := all_some (map (write_construct g) cs).
   Definition load_net (g : h5gen) (ns : list node) : option (list csem) := all_some (map (load_node g) (order ns)).
+
+  (* ================= the whole file: a tree of groups with attributes and arrays ================= *)
+  (* /neuroml {id, notes, neuroml_top_level}  /  network {id, notes, temperature}  /  population_<id> | projection_<id> |
+     inputList_<id> {attributes}  /  <id> : float32 array with column_N attributes *)
+  Record cgroup := { cg_name : string; cg_attrs : list (string * option string);
+                     cg_array : option (list (option string) * list (list F)) }.
+  Record netgroup := { ng_name : string; ng_attrs : list (string * option string); ng_children : list cgroup }.
+  (* the non-network top-level components travel as XML inside an attribute of the root group *)
+  Variables X XML : Type.
+  Variable xcls : X -> string.
+  Variable xexport : X -> option XML.
+  Variable xbuild : string -> XML -> option X.
+  Record h5file := { f_root : string; f_attrs : list (string * option string); f_xml : list (string * XML);
+                     f_networks : list netgroup }.
+
+  (* the document side: constructs WITHOUT the instance flag (it is a property of the populations) *)
+  Record dconstruct := { dc_kind : string; dc_attrs : string -> option string; dc_rows : list trow }.
+  Record dnetwork := { dn_attrs : string -> option string; dn_constructs : list dconstruct }.
+  Record document := { dd_attrs : string -> option string; dd_top : list X; dd_networks : list dnetwork }.
+
+  Definition nonempty {A} (l : list A) : bool := match l with [] => false | _ => true end.
+  Definition str_of (o : option string) : string := match o with Some s => s | None => "" end.
+
+  (* NetworkBuilder.handle_connection: instances = one of the two populations has instances *)
+  Definition pop_inst (pops : list (option string * bool)) (pre post : option string) : bool :=
+    existsb (fun p => (ostr_eqb (fst p) pre || ostr_eqb (fst p) post) && snd p) pops.
+  Definition pops_of (cs : list dconstruct) : list (option string * bool) :=
+    map (fun c => (dc_attrs c "id", nonempty (dc_rows c))) (filter (fun c => String.eqb (dc_kind c) "population") cs).
+
+  (* which attribute specification applies: a population without instances stores its size *)
+  Definition gkind (kind : string) (has_rows : bool) : string :=
+    if String.eqb kind "population" && negb has_rows then "sized_population" else kind.
+
+  Definition kind_prefix (g : h5gen) (kind : string) : string := str_of (assoc kind (sk_wprefix (g_skel g))).
+
+  Definition write_cgroup (g : h5gen) (c : dconstruct) : option cgroup :=
+    let name := (kind_prefix g (dc_kind c) ++ str_of (dc_attrs c "id"))%string in
+    match dc_rows c with
+    | [] => if String.eqb (dc_kind c) "population"
+            then Some {| cg_name := name; cg_attrs := write_attrs (g_sized_pop_w g) (dc_attrs c); cg_array := None |}
+            else if String.eqb (dc_kind c) "projection"
+            then Some {| cg_name := name; cg_attrs := write_attrs (sk_empty_proj_w (g_skel g)) (dc_attrs c); cg_array := None |}
+            else None            (* an electrical / continuous projection or input list without rows makes exportHdf5 raise *)
+    | _ => match select_table g (dc_kind c) (dc_rows c) with
+           | Some wt => match write_rows wt (dc_rows c) with
+                        | Some cells => Some {| cg_name := name; cg_attrs := write_attrs (wt_gattrs wt) (dc_attrs c);
+                                                cg_array := Some (wt_names wt, cells) |}
+                        | None => None end
+           | None => None end
+    end.
+
+  Definition write_network (g : h5gen) (n : dnetwork) : option netgroup :=
+    match all_some (map (write_cgroup g) (dn_constructs n)) with
+    | Some cgs => Some {| ng_name := sk_network (g_skel g); ng_attrs := write_attrs (g_net_w g) (dn_attrs n); ng_children := cgs |}
+    | None => None end.
+
+  (* PyTables refuses a second child of the same name: every network group is called "network" *)
+  Definition write_document (g : h5gen) (d : document) : option h5file :=
+    match dd_networks d with
+    | _ :: _ :: _ => None
+    | nets =>
+      match all_some (map (write_network g) nets),
+            all_some (map (fun o => match xexport o with Some x => Some (xcls o, x) | None => None end) (dd_top d)) with
+      | Some ngs, Some xs => Some {| f_root := sk_root (g_skel g); f_attrs := write_attrs (g_doc_w g) (dd_attrs d);
+                                     f_xml := xs; f_networks := ngs |}
+      | _, _ => None end
+    end.
+
+  (* ---- the reader: dispatch on the group-name prefix (start_group), the kind of a projection group from its type attribute *)
+  Definition kind_of_type (t : option string) : string :=
+    match t with
+    | Some s => if String.eqb s "electricalProjection" then "electrical"
+                else if String.eqb s "continuousProjection" then "continuous" else "projection"
+    | None => "projection" end.
+  Definition group_class (g : h5gen) (name : string) : option string :=
+    match find (fun pc => String.prefix (fst pc) name) (sk_rprefix (g_skel g)) with Some pc => Some (snd pc) | None => None end.
+  Definition group_kind (g : h5gen) (cg : cgroup) : option string :=
+    match group_class g (cg_name cg) with
+    | Some cls => if String.eqb cls "population" then Some "population"
+                  else if String.eqb cls "inputlist" then Some "inputlist"
+                  else if String.eqb cls "projection" then Some (kind_of_type (read_attr (cg_attrs cg) "type"))
+                  else None
+    | None => None end.
+
+  (* the populations as the builder knows them when the connections arrive (parse_group handles population groups first) *)
+  Definition loaded_pops (g : h5gen) (cgs : list cgroup) : list (option string * bool) :=
+    map (fun cg => (read_attr (cg_attrs cg) "id", match cg_array cg with Some (_, cells) => nonempty cells | None => false end))
+        (filter (fun cg => ostr_eqb (group_class g (cg_name cg)) (Some "population")) cgs).
+
+  Definition attr_name_of (kind field : string) : string :=
+    match find (fun x => String.eqb (snd (fst x)) field) (gspec kind) with Some x => fst (fst x) | None => "" end.
+
+  Definition load_cgroup (g : h5gen) (pops : list (option string * bool)) (cg : cgroup) : option csem :=
+    match group_kind g cg with
+    | Some kind =>
+        let has := match cg_array cg with Some _ => true | None => false end in
+        let gk := gkind kind has in
+        let fields := map (fun x => (snd (fst x), read_attr (cg_attrs cg) (fst (fst x)))) (gspec gk) in
+        let inst := pop_inst pops (read_attr (cg_attrs cg) (attr_name_of kind "pre")) (read_attr (cg_attrs cg) (attr_name_of kind "post")) in
+        match cg_array cg with
+        | Some (names, cells) =>
+            match load_rows kind inst names (reader_of g kind) cells with
+            | Some out => Some (gk, fields, out) | None => None end
+        | None => Some (gk, fields, [])
+        end
+    | None => None end.
+
+  Variable corder : list cgroup -> list cgroup.      (* PyTables: children in name order *)
+  Definition load_network (g : h5gen) (ng : netgroup) : option (list (string * option string) * list csem) :=
+    let cgs := corder (ng_children ng) in
+    match all_some (map (load_cgroup g (loaded_pops g cgs)) cgs) with
+    | Some sems => Some (map (fun x => (snd (fst x), read_attr (ng_attrs ng) (fst (fst x)))) (gspec "network"), sems)
+    | None => None end.
+
+  Definition dsem := (list (string * option string) * list X * list (list (string * option string) * list csem))%type.
+  Definition load_document (g : h5gen) (f : h5file) : option dsem :=
+    match all_some (map (fun cx => xbuild (fst cx) (snd cx)) (f_xml f)), all_some (map (load_network g) (f_networks f)) with
+    | Some tops, Some nets =>
+        Some (map (fun x => (snd (fst x), read_attr (f_attrs f) (fst (fst x)))) (gspec "document"), tops, nets)
+    | _, _ => None end.
+
+  (* ---- what the property compares *)
+  Definition dc_inst (cs : list dconstruct) (c : dconstruct) : bool :=
+    pop_inst (pops_of cs) (dc_attrs c "pre") (dc_attrs c "post").
+  Definition sem32_dc (cs : list dconstruct) (c : dconstruct) : csem :=
+    let gk := gkind (dc_kind c) (nonempty (dc_rows c)) in
+    (gk, map (fun f => (f, dc_attrs c f)) (attr_fields gk),
+     match dc_rows c with [] => [] | _ => sem_rows (dc_kind c) (map (fun r => sem32_of (dc_kind c) (snd r)) (dc_rows c)) end).
+
+  (* ---- the optimized loader: a second reader over the same column names *)
+  Definition odflt_val (d : odflt) (i : nat) (row : list F) : option F :=
+    match d with ODConst c => Some (cval c) | ODColumn k => nth_error row k | ODRowIndex => Some (ofnat i) | ODFail => None end.
+  Definition opt_decode (names : list (option string)) (oe : oentry) (i : nat) (row : list F) : option F :=
+    match find_col names (oe_name oe) 0 with
+    | Some j => if (if Nat.eqb j 0 then oe_at0 oe else true)
+                then match nth_error row j with Some v => Some (if oe_int oe then rint v else v) | None => None end
+                else odflt_val (oe_dflt oe) i row
+    | None => odflt_val (oe_dflt oe) i row
+    end.
 End Codec.
+
+(* ------------------------------------------------------------------ obligations on the skeleton *)
+Definition class_of_kind (kind : string) : string :=
+  if String.eqb kind "population" then "population" else if String.eqb kind "inputlist" then "inputlist" else "projection".
+
+(* the reader dispatches the writer's group names to the right class: every reader prefix comparable with the writer's prefix
+   of a kind belongs to that kind's class, and the writer's prefix itself is one of the reader's *)
+Definition dispatch_ok (sk : skeleton) (kind : string) : bool :=
+  match assoc kind (sk_wprefix sk) with
+  | Some p => forallb (fun pc => if String.prefix (fst pc) p || String.prefix p (fst pc) then String.eqb (snd pc) (class_of_kind kind) else true)
+                      (sk_rprefix sk)
+              && existsb (fun pc => String.eqb (fst pc) p) (sk_rprefix sk)
+  | None => false end.
+
+(* a projection group carries its kind in the constant attribute "type" *)
+Definition type_attr_ok (kind : string) (w : list (string * gsrc)) : bool :=
+  if String.eqb (class_of_kind kind) "projection"
+  then match assoc "type" w with
+       | Some (GConst t) => String.eqb (if String.eqb t "electricalProjection" then "electrical"
+                                        else if String.eqb t "continuousProjection" then "continuous" else "projection") kind
+       | _ => false end
+  else true.
+
+Definition skeleton_ok (g : h5gen) : bool :=
+  let sk := g_skel g in
+  Nat.eqb (sk_networks_written sk) 2 && sk_embeds_xml sk && sk_restores_networks sk && sk_array_named_by_id sk
+  && sk_prefix_only sk && sk_pops_first sk && sk_root_dispatch sk
+  && forallb (dispatch_ok sk) table_kinds
+  && forallb (fun wt => type_attr_ok (wt_kind wt) (wt_gattrs wt)) (g_writer g)
+  && strs_eqb (sk_order sk) ["population"; "projection"; "electrical"; "continuous"; "inputlist"]
+  (* the chemical projection without connections: no table, the attributes of the specification, read back by finalise_projection *)
+  && negb (sk_empty_proj_array sk) && type_attr_ok "projection" (sk_empty_proj_w sk)
+  && forallb (fun x => let '(a, f, _) := x in
+                       match assoc a (sk_empty_proj_w sk) with Some s => gsrc_eqb s (GField f) | None => false end
+                       && match assoc f (sk_empty_proj_read sk) with Some b => b | None => false end) (gspec "projection").
+
+(* the optimized containers: for the tables they can hold (locations; chemical projections of plain Connections; input lists of
+   plain Inputs) every field they deliver comes from the column the writer stored it in (or is at its default when the writer
+   stores none), a 0 cell stays 0, and nothing the table stores is dropped *)
+Definition opt_supported (wt : wtable) : bool :=
+  match wt_flags wt with
+  | ["Instance"] | ["Connection"] | ["Connection"; "segfract"] | ["Input"] => true
+  | _ => false end.
+Definition oe_ok (names : list (option string)) (cols : list src) (oe : oentry) : bool :=
+  oe_zero_kept oe &&
+  match find_col names (oe_name oe) 0 with
+  | Some j => (if Nat.eqb j 0 then oe_at0 oe else true)
+              && match nth_error cols j with
+                 | Some (SField g) => String.eqb g (oe_field oe) && (negb (oe_int oe) || int_field (oe_field oe))
+                 | _ => false end
+  | None => negb (field_stored cols (oe_field oe))
+            && match sem_default (oe_field oe), oe_dflt oe with
+               | Some c, ODConst c' => cst_eqb c c'
+               | None, ODRowIndex => true
+               | _, _ => false end
+  end.
+Definition opt_table_ok (g : h5gen) (wt : wtable) : bool :=
+  negb (opt_supported wt) ||
+  forallb (fun v => match find (fun ot => String.eqb (ot_kind ot) (wt_kind wt)) (g_opt g) with
+                    | Some ot => forallb (oe_ok (wt_names wt) (wv_cols v)) (ot_entries ot)
+                                 && forallb (fun s => match s with
+                                                      | SField f => existsb (fun oe => String.eqb (oe_field oe) f) (ot_entries ot)
+                                                      | SConst _ => true end) (wv_cols v)
+                    | None => false end) (wt_variants wt).
+Definition optimized_ok (g : h5gen) : bool :=
+  forallb (opt_table_ok g) (g_writer g)
+  && forallb (fun k => existsb (fun ot => String.eqb (ot_kind ot) k) (g_opt g)) ["population"; "projection"; "inputlist"].
+Definition failing_optimized (g : h5gen) : list (string * list string) :=
+  map (fun wt => (wt_kind wt, wt_flags wt)) (filter (fun wt => negb (opt_table_ok g wt)) (g_writer g)).
 
 (* ------------------------------------------------------------------ the exact instance: numbers that are multiples of 1/1024
    (float32 numbers), represented by Z scaled by 1024: r32 = int() = identity, == is Z.eqb *)
